@@ -837,6 +837,21 @@ package psatoken
 // the profile a CBOR token declares: the text under key 265, "" when the key is absent or null
 //@ spec cborProfile(b Int) string = ite(cborHas265(b), cborText265(b), "")
 
+// isCBORMap: the loop skips tag heads (major type 6) and tests major type 5. Its index / slice safety,
+// termination and frame are proved; that this IS "a map under its tags" for well-formed input is the
+// RFC 8949 head grammar, stated as an assumed clause and audited on the real code by the ground
+// obligation iscbormap-audit (every byte string of length <= 2 and selected longer heads, compared
+// with the independent reader of /verif/harness).
+//@ func isCBORMap
+//@   property C20 C05 C06 C17 C18
+//@   assumes[map] ret == cborTopIsMap(bytesVal(buf)) :: RFC 8949 head grammar (tag head = major type 6 with 0/1/2/4/8 argument bytes); audited by ground:iscbormap-audit and bounded:envelope
+//@   modifies nothing
+//@   option allocs=none
+//@   loop 0 invariant len(buf) <= len(old(buf))
+//@   loop 0 decreases len(buf)
+
+//@ ground[C20] iscbormap-audit : isCBORMapAudit()
+
 //@ func DecodeClaimsFromCBOR
 //@   property C07 C16 C08 C05 C18 C04 C09 C20 C17 C02 C03 C19
 //@   ghostset prov(ret0) = bytesVal(buf) when ret1 == nil
